@@ -261,6 +261,28 @@ pub fn regexp_test(
     Ok(Guarded::unguarded(JsValue::Boolean(is_match)))
 }
 
+/// The `groups` property of a match result: undefined when the expression has no named
+/// groups, else an object from group name to captured text (undefined if it did not take part)
+pub fn match_groups(
+    interp: &mut Interpreter,
+    guard: &crate::gc::Guard<crate::value::JsObject>,
+    names: &[Option<crate::prelude::String>],
+    captures: &[JsValue],
+) -> JsValue {
+    if !names.iter().any(|name| name.is_some()) {
+        return JsValue::Undefined;
+    }
+    let groups = interp.create_object(guard);
+    for (index, name) in names.iter().enumerate() {
+        if let Some(name) = name {
+            let key = PropertyKey::String(interp.intern(name));
+            let value = captures.get(index).cloned().unwrap_or(JsValue::Undefined);
+            groups.borrow_mut().set_property(key, value);
+        }
+    }
+    JsValue::Object(groups)
+}
+
 pub fn regexp_exec(
     interp: &mut Interpreter,
     this: JsValue,
@@ -328,6 +350,7 @@ pub fn regexp_exec(
             }
 
             let guard = interp.heap.create_guard();
+            let groups = match_groups(interp, &guard, &re.capture_names(), &result);
             let arr = interp.create_array_from(&guard, result);
 
             // Set index property (match start position)
@@ -335,6 +358,8 @@ pub fn regexp_exec(
                 .set_property(index_key, JsValue::Number(regex_match.start as f64));
             arr.borrow_mut()
                 .set_property(input_key, JsValue::String(JsString::from(input.clone())));
+            let groups_key = PropertyKey::String(interp.intern("groups"));
+            arr.borrow_mut().set_property(groups_key, groups);
 
             // Update lastIndex for global/sticky regexes
             if is_global || is_sticky {
